@@ -14,8 +14,10 @@ transition state per step (thorough: 5-8 steps by two deviations from base profi
 `Reactions.get_E_span` and `Network.get_E_span`.  Oracle: max - min (+ G_last - G_first when the
 maximum precedes the minimum) on the profile the harness wrote down.
 """
+import copy
 import itertools
 import math
+import numbers
 
 import numpy as np
 
@@ -24,11 +26,16 @@ RULE = ('phase diagrams: product of (number of reactions 1-8, rotation of the re
         'normalisation-factor cycle, scan variable(s), grid size(s), energy units, base conditions) up to the '
         'stated deviation level; a case is non-trivial when the expected stable phase changes along the grid. '
         'Energy spans: all profiles of the stated lattice; non-trivial when the maximum precedes the minimum, '
-        'or a tie exists, or the extremum is a transition state')
+        'or a tie exists, or the extremum is a transition state. Containers and number types of grids / factors / '
+        'fixed conditions, repeated scans, second diagrams: one deviation from the default case. Energy spans with '
+        'ideal-gas species: product of (profile, gas pattern, condition set); non-trivial when a pressure other than '
+        'the default is requested')
 ASSUMPTIONS = ['species are real StatMech objects from a fixed table (energies on a lattice chosen so that lines cross)',
                'ties (equal normalised energies / equal extremal state energies) accept any of the tied answers',
                'the index type of the reported stable phase (int / integral float) is not part of the property',
-               'T is always supplied when energy units are requested']
+               'T is always supplied when energy units are requested',
+               'a whole-number grid value / condition / factor (Python int, int64) denotes the same real number as the float',
+               'the pressure dependence of an ideal-gas species is kB T ln(P / 1 bar) on top of its own 1 bar Gibbs energy']
 EXPLANATION = ('exhaustive product enumeration on the real PhaseDiagram / Reactions / Network classes; oracle from '
                'the reactions own values at freshly built conditions and from the profile written by the harness')
 
@@ -47,15 +54,39 @@ PAIRS = [('T', 'P'), ('P', 'T'), ('T', 'O2_kwargs'), ('O2_kwargs', 'H2O_kwargs')
 SIZES2 = {'quick': [(1, 1), (1, 5), (2, 5), (5, 2), (5, 5), (2, 30), (30, 1)],
           'thorough': [(1, 1), (1, 5), (2, 5), (5, 2), (5, 5), (2, 30), (30, 1), (30, 5), (5, 30), (30, 30)]}
 LAT = [-2.0, -1.0, 0.0, 1.0, 2.0]
+LAT3 = [-1.0, 0.0, 1.0]
 N_PD_SHARDS = 12
 N_SPAN_SHARDS = 12
+N_SPANC_SHARDS = 12
+
+# ---- containers / number types of the grids, factors and fixed conditions (strengthening after seeded changes)
+NORMS_INT = [1, 2, 3, 4]
+P_INT = {1: [2], 2: [1, 100], 5: [1, 2, 5, 10, 100], 30: list(range(1, 31))}
+RANGES = {'T': {1: (800, 801, 1), 2: (400, 1401, 1000), 5: (300, 1501, 300), 30: (250, 1750, 50)},
+          'P': {1: (2, 3, 1), 2: (1, 101, 99), 5: (1, 102, 25), 30: (1, 31, 1)}}
+FORMS_NUM = ['array', 'intlist', 'intarray', 'range', 'inttuple', 'desc', 'shuffled']
+FORMS_DICT = ['tuple', 'intdict', 'desc', 'shuffled']
+NFORMS = ['intlist', 'intarray', 'tuple', 'none', 'omitted']
+TWINS = ['new', 'deepcopy', 'dict']
 
 PLANNED_TAGS = ['pd:1D', 'pd:2D', 'pd:argmin-changes-along-grid', 'pd:argmin-constant', 'pd:n_rxn==n_x',
                 'pd:n_rxn!=n_x', 'pd:units', 'pd:dimensionless', 'pd:scan-T', 'pd:scan-P', 'pd:scan-O2_kwargs',
                 'pd:scan-H2O_kwargs', 'pd:single-reaction', 'pd:single-point', 'pd:norm-list', 'pd:1D=row-of-2D',
                 'pd:1D=column-of-2D', 'span:max-before-min', 'span:max-after-min', 'span:tie', 'span:ts-is-max',
                 'span:intermediate-is-max', 'span:no-ts', 'span:spectator', 'span:single-step', 'span:Reactions',
-                'span:Network', 'span:unchained', 'pd:norm-edit-reassign', 'pd:norm-edit-inplace']
+                'span:Network', 'span:unchained', 'pd:norm-edit-reassign', 'pd:norm-edit-inplace',
+                # strengthening after seeded changes: containers / number types, caller's data, repeated calls,
+                # second objects, gas species and pressures in the energy span
+                'pd:grid-array', 'pd:grid-intlist', 'pd:grid-intarray', 'pd:grid-range', 'pd:grid-inttuple',
+                'pd:grid-desc', 'pd:grid-shuffled', 'pd:grid-tuple', 'pd:grid-intdict', 'pd:2D-grid-forms',
+                'pd:norm-intlist', 'pd:norm-intarray', 'pd:norm-tuple', 'pd:norm-none', 'pd:norm-omitted',
+                'pd:fixed-conditions-int', 'pd:fixed-empty-species-kwargs', 'pd:again-same', 'pd:again-edited',
+                'pd:again-2D', 'pd:twin-new', 'pd:twin-deepcopy', 'pd:twin-dict',
+                'spanc:max-before-min', 'spanc:max-after-min', 'spanc:tie',
+                'spanc:before+overall-term-depends-on-conditions', 'spanc:extrema-move-with-conditions',
+                'spanc:cond-P-omitted', 'spanc:cond-P', 'spanc:cond-species-P', 'spanc:cond-P-+-species-P',
+                'spanc:mid-gas', 'spanc:end-gas', 'spanc:int-T', 'spanc:float-T', 'spanc:int-P', 'spanc:edit-append',
+                'spanc:second-call', 'spanc:Reactions', 'spanc:Network']
 
 
 def bounds(tier):
@@ -64,7 +95,19 @@ def bounds(tier):
                 deviation_1D=('n x scan x size x units full; rotation/offset/base/list one deviation' if tier == 'quick'
                               else 'n x scan x size x units x rotation(4) x offset(4) full; base/list one deviation'),
                 span_steps='1-4 exhaustive' + ('' if tier == 'quick' else ' + 5-8 by two deviations from 2 base profiles'),
-                span_lattice_eV=LAT, span_ts='absent or 1 eV above the higher neighbour')
+                span_lattice_eV=LAT, span_ts='absent or 1 eV above the higher neighbour',
+                grid_containers=dict(numeric=['list'] + FORMS_NUM, per_species=['list'] + FORMS_DICT,
+                                     where='1-D: one deviation, sizes 2 and 5 (number-type forms also sizes 1 and 30); '
+                                           '2-D: either grid (thorough) / first grid of (5,2), second of (2,5) (quick), '
+                                           'both grids for integer and unsorted forms'),
+                norm_factor_containers=['ndarray', 'list'] + NFORMS, fixed_conditions=['a', 'b', 'i (ints)', 'e (empty species dicts)'],
+                histories=['scan, edit norm_factors, scan', 'scan, overwrite result (+ edit grid in place), scan',
+                           'diagram A, diagram B made by new/deepcopy/from_dict and edited, A again',
+                           'span, append step, span', 'span twice with the same keyword objects'],
+                span_conditions=dict(gas_patterns=GAS_PATTERNS + MID_PATTERNS, conditions=SPAN_CONDS, T=[300, 650.0],
+                                     profiles=('1-2 steps on {-1,0,1} all TS codes, 3 steps first state 0 with 3 TS codes'
+                                               if tier == 'quick' else
+                                               '1-2 steps on {-2..2}, 3 steps on {-1,0,1}, all TS codes, both T')))
 
 
 # =================================================================== phase diagrams
@@ -123,26 +166,126 @@ def _diagram(case):
     order = RXN_ORDER[case['rot']:] + RXN_ORDER[:case['rot']]
     tags = order[:case['n']]
     rxns = [_reaction(t, sp) for t in tags]
-    norms = [NORMS[(i + case['off']) % 4] for i in range(case['n'])]
-    nf = list(norms) if case.get('normlist') else np.array(norms)
-    return PhaseDiagram(reactions=rxns, norm_factors=nf), rxns, norms
+    nform = case.get('nform')
+    if nform in ('intlist', 'intarray', 'tuple'):
+        norms = [NORMS_INT[(i + case['off']) % 4] for i in range(case['n'])]        # Python ints
+    elif nform in ('none', 'omitted'):
+        norms = [1.0] * case['n']                                                     # documented default: ones
+    else:
+        norms = [NORMS[(i + case['off']) % 4] for i in range(case['n'])]
+    if nform == 'omitted':
+        return PhaseDiagram(reactions=rxns), rxns, norms
+    if nform == 'none':
+        nf = None
+    elif nform == 'intlist':
+        nf = list(norms)
+    elif nform == 'intarray':
+        nf = np.array(norms, dtype=np.int64)
+    elif nform == 'tuple':
+        nf = tuple(norms)
+    else:
+        nf = list(norms) if case.get('normlist') else np.array(norms)
+    return PhaseDiagram(reactions=rxns, norm_factors=nf), rxns, [float(v) for v in norms]
 
 
-def _grid(name, n):
-    if name == 'T':
-        return list(T_GRID[n])
-    if name == 'P':
-        return list(P_GRID[n])
-    return [{'P': p} for p in P_GRID[n]]
+def _shuffle(vals):
+    """Deterministic unsorted order with a repeated value (odd positions, then the even ones backwards; the last
+    entry repeats the first when there are at least three)."""
+    out = list(vals[1::2]) + list(vals[0::2][::-1])
+    if len(out) >= 3:
+        out[-1] = out[0]
+    return out
+
+
+def _grid(name, n, form=None):
+    """The grid container exactly as the caller hands it over.  form None: list of floats / of {'P': float}.
+    Numeric scans: float ndarray, list / int64 ndarray / range / tuple of whole numbers, descending, unsorted with a
+    repeat.  Per-species scans: tuple of dicts, dicts holding Python ints, descending, unsorted with a repeat."""
+    key = 'T' if name == 'T' else 'P'
+    numeric = name in ('T', 'P')
+    if form in ('intlist', 'intarray', 'inttuple', 'intdict'):
+        vals = [int(v) for v in T_GRID[n]] if key == 'T' else list(P_INT[n])
+    elif form == 'range':
+        vals = list(range(*RANGES[key][n]))
+    else:
+        vals = list(T_GRID[n] if key == 'T' else P_GRID[n])
+    if form == 'desc':
+        vals = vals[::-1]
+    elif form == 'shuffled':
+        vals = _shuffle(vals)
+    if not numeric:
+        if form not in (None, 'tuple', 'intdict', 'desc', 'shuffled'):
+            raise ValueError(form)
+        out = [{'P': p} for p in vals]
+        return tuple(out) if form == 'tuple' else out
+    if form == 'array':
+        return np.array(vals, dtype=float)
+    if form == 'intarray':
+        return np.array(vals, dtype=np.int64)
+    if form == 'range':
+        return range(*RANGES[key][n])
+    if form == 'inttuple':
+        return tuple(vals)
+    if form in (None, 'intlist', 'desc', 'shuffled'):
+        return vals
+    raise ValueError(form)
+
+
+def _num(v):
+    """Oracle-side number: whole-number types are taken as the real number they denote."""
+    if isinstance(v, numbers.Integral) and not isinstance(v, bool):
+        return float(int(v))
+    if isinstance(v, np.floating):
+        return float(v)
+    return v
+
+
+def _oelem(x):
+    """Oracle-side copy of one grid value / one fixed condition (fresh objects, whole numbers as floats)."""
+    if isinstance(x, dict):
+        return {k: _oelem(v) for k, v in x.items()}
+    return _num(x)
+
+
+def _snap(x):
+    """Harness-side deep copy of a caller-owned argument (taken before the call)."""
+    if isinstance(x, np.ndarray):
+        return x.copy()
+    if isinstance(x, range):
+        return x
+    return copy.deepcopy(x)
+
+
+def _same(x, snap):
+    """The caller's argument still has the type, number type and content of the snapshot."""
+    if type(x) is not type(snap):
+        return False
+    if isinstance(x, np.ndarray):
+        return x.dtype == snap.dtype and x.shape == snap.shape and bool(np.array_equal(x, snap))
+    if isinstance(x, dict):
+        return list(x.keys()) == list(snap.keys()) and all(_same(x[k], snap[k]) for k in x)
+    if isinstance(x, (list, tuple)):
+        return len(x) == len(snap) and all(_same(a, b) for a, b in zip(x, snap))
+    if isinstance(x, float) and isinstance(snap, float) and x != x and snap != snap:
+        return True
+    return bool(x == snap)
 
 
 def _base(names, variant):
-    """Fixed conditions for everything that is not scanned (a fresh dict every call)."""
+    """Fixed conditions for everything that is not scanned (a fresh dict every call).
+    'a' floats; 'b' other values + per-species pressures; 'i' the values of 'a' as Python ints; 'e' the values of
+    'a' plus explicitly empty per-species dicts."""
     kw = {}
+    if variant == 'i':
+        if 'T' not in names:
+            kw['T'] = 800
+        if 'P' not in names:
+            kw['P'] = 1
+        return kw
     if 'T' not in names:
-        kw['T'] = 800.0 if variant == 'a' else 1100.0
+        kw['T'] = 800.0 if variant in ('a', 'e') else 1100.0
     if 'P' not in names:
-        if variant == 'a':
+        if variant in ('a', 'e'):
             kw['P'] = 1.0
         elif 'T' in names:
             kw['P'] = 1e-3
@@ -151,6 +294,10 @@ def _base(names, variant):
             kw['O2_kwargs'] = {'P': 1e-12}
         if 'H2O_kwargs' not in names and 'P' in names:
             kw['H2O_kwargs'] = {'P': 1e-4}
+    if variant == 'e':
+        for k in ('O2_kwargs', 'H2O_kwargs'):
+            if k not in names:
+                kw[k] = {}
     return kw
 
 
@@ -162,11 +309,13 @@ def _cond(base, **point):
 
 
 def _expected(rxns, norms, cond, units):
-    """The reaction's own value at freshly built conditions / factor (x R T)."""
+    """The reaction's own value at freshly built conditions / factor (x R T).  The conditions are rebuilt here
+    (fresh dicts; whole-number inputs as the floats they denote), never the objects the scan has seen."""
     from pmutt import constants as c
     out = []
+    cond = _oelem(cond)
     for r, nf in zip(rxns, norms):
-        v = r.get_delta_GoRT(**_cond(cond)) / nf
+        v = r.get_delta_GoRT(**_oelem(cond)) / float(nf)
         if units is not None:
             v *= c.R('%s/K' % units) * cond['T']
         out.append(v)
@@ -186,20 +335,45 @@ def _argmin_ok(reported, col, tol):
 
 def _pd_sig(case):
     if case['kind'] == 'pd1':
-        return dict(part='phase-diagram', dim=1, scan=case['scan'], units='energy' if case['units'] else 'none')
-    return dict(part='phase-diagram', dim=2, scan='%s,%s' % tuple(case['pair']),
-                units='energy' if case['units'] else 'none')
+        s = dict(part='phase-diagram', dim=1, scan=case['scan'], units='energy' if case['units'] else 'none')
+        if case.get('gform'):
+            s['grid'] = case['gform']
+    else:
+        s = dict(part='phase-diagram', dim=2, scan='%s,%s' % tuple(case['pair']),
+                 units='energy' if case['units'] else 'none')
+        if case.get('gforms'):
+            s['grid'] = '%s,%s' % tuple(f or 'list' for f in case['gforms'])
+    if case.get('nform'):
+        s['norms'] = case['nform']
+    if case.get('base') in ('i', 'e'):
+        s['fixed'] = {'i': 'ints', 'e': 'empty species kwargs'}[case['base']]
+    return s
+
+
+UNCHANGED = "the call leaves the caller's grid, fixed conditions and normalisation factors as they were"
+
+
+def _norm_snapshot(pd):
+    nf = pd.norm_factors
+    return (type(nf).__name__, str(getattr(nf, 'dtype', '')), [float(v) for v in nf])
 
 
 def _check_1d(pd, rxns, norms, name, grid, base, units, ctx, sig, case, tag=True):
-    """All 1-D clauses; returns (table, stable) or None."""
-    n, nx = len(rxns), len(grid)
-    G, st = pd.get_GoRT_1D(x_name=name, x_values=[dict(g) if isinstance(g, dict) else g for g in grid],
-                           G_units=units, **_cond(base))
+    """All 1-D clauses; returns (table, stable) or None.  `grid` is the caller's own container and is handed over
+    as it is; the oracle works on a copy taken before the call."""
+    elems = [_oelem(g) for g in grid]
+    n, nx = len(rxns), len(elems)
+    g_snap, kw = _snap(grid), _cond(base)
+    kw_snap, nf_snap, rx_snap = _snap(kw), _norm_snapshot(pd), list(pd.reactions)
+    G, st = pd.get_GoRT_1D(x_name=name, x_values=grid, G_units=units, **kw)
     ctx.trace()
     ctx.evals(n * nx)
+    ctx.true(UNCHANGED, _same(grid, g_snap) and _same(kw, kw_snap) and _norm_snapshot(pd) == nf_snap
+             and len(pd.reactions) == len(rx_snap) and all(a is b for a, b in zip(pd.reactions, rx_snap)), sig, case,
+             dict(grid=repr(grid)[:200], fixed=repr(kw)[:200], norm_factors=repr(pd.norm_factors)[:120]),
+             dict(grid=repr(g_snap)[:200], fixed=repr(kw_snap)[:200], norm_factors=repr(nf_snap)[:120]))
     G, st = np.asarray(G), np.asarray(st)
-    exp = np.array([_expected(rxns, norms, _cond(base, **{name: g}), units) for g in grid]).T.reshape(n, nx)
+    exp = np.array([_expected(rxns, norms, _cond(base, **{name: g}), units) for g in elems]).T.reshape(n, nx)
     ctx.evals(n * nx)
     ok = ctx.true('1-D table has shape (n_reactions, n_x)', G.shape == (n, nx), sig, case, list(G.shape), [n, nx])
     if not ok:
@@ -221,11 +395,45 @@ def _check_1d(pd, rxns, norms, name, grid, base, units, ctx, sig, case, tag=True
     return (G, st) if (ok and okp) else None
 
 
+def _edit_grid(grid):
+    """Edit the caller's grid container in place (the next scan must follow its NEW content)."""
+    if isinstance(grid, np.ndarray):
+        grid[:] = grid[::-1].copy()
+    else:
+        grid.reverse()
+        if isinstance(grid[0], dict):
+            grid[0]['P'] = grid[0]['P'] * 10.0          # the dict object itself is edited as well
+        elif len(grid) >= 2:
+            grid[-1] = grid[0]                           # repeated value
+
+
+def _twin(pd, case, route):
+    """A second diagram with different parameters in the same process, edited after it was made."""
+    from pmutt.reaction.phasediagram import PhaseDiagram
+    n = case['n']
+    new = [NORMS[(i + case['off'] + 1) % 4] for i in range(n)]
+    if route == 'new':
+        other = PhaseDiagram(reactions=list(pd.reactions)[::-1], norm_factors=np.array(new))
+    elif route == 'deepcopy':
+        other = copy.deepcopy(pd)
+        other.reactions.reverse()
+        other.norm_factors = np.array(new)                      # reassigned
+    elif route == 'dict':
+        other = PhaseDiagram.from_dict(pd.to_dict())
+        other.reactions.reverse()
+        nf = other.norm_factors                                 # edited in place (whatever container from_dict made)
+        for i, v in enumerate(new):
+            nf[i] = v
+    else:
+        raise ValueError(route)
+    return other, list(other.reactions), new
+
+
 def _run_pd1(case, ctx):
     sig = _pd_sig(case)
     pd, rxns, norms = _diagram(case)
     name, units = case['scan'], case['units']
-    grid = _grid(name, case['nx'])
+    grid = _grid(name, case['nx'], case.get('gform'))
     base = _base([name], case['base'])
     ctx.tag('pd:1D')
     ctx.tag('pd:scan-' + name)
@@ -236,8 +444,16 @@ def _run_pd1(case, ctx):
         ctx.tag('pd:single-point')
     if case.get('normlist'):
         ctx.tag('pd:norm-list')
+    if case.get('gform'):
+        ctx.tag('pd:grid-' + case['gform'])
+    if case.get('nform'):
+        ctx.tag('pd:norm-' + case['nform'])
+    if case['base'] == 'i':
+        ctx.tag('pd:fixed-conditions-int')
+    if case['base'] == 'e':
+        ctx.tag('pd:fixed-empty-species-kwargs')
     ctx.trans(case['n'] * case['nx'])
-    _check_1d(pd, rxns, norms, name, grid, base, units, ctx, sig, case)
+    r = _check_1d(pd, rxns, norms, name, grid, base, units, ctx, sig, case)
     hist = case.get('hist')
     if hist:
         # history: scan, change the public norm_factors attribute, scan again on the same object -
@@ -252,48 +468,102 @@ def _run_pd1(case, ctx):
         ctx.trans(case['n'] * case['nx'])
         _check_1d(pd, rxns, new, name, grid, base, units, ctx, dict(sig, history='scan, edit norm_factors (%s), scan' % hist),
                   case, tag=False)
+    again = case.get('again')
+    if again:
+        # history: scan, the caller overwrites the returned arrays (and, for 'edited', edits the grid container in
+        # place), same object scanned again with the very same container
+        ctx.tag('pd:again-' + again)
+        if r is not None:
+            for arr in r:
+                if isinstance(arr, np.ndarray) and arr.flags.writeable:
+                    arr[...] = 7
+        if again == 'edited':
+            _edit_grid(grid)
+        ctx.trans(case['n'] * case['nx'])
+        _check_1d(pd, rxns, norms, name, grid, base, units, ctx,
+                  dict(sig, history='scan, overwrite the result%s, scan' % (', edit the grid in place' if again == 'edited' else '')),
+                  case, tag=False)
+    twin = case.get('twin')
+    if twin:
+        # two diagrams with different parameters in one process: A, B (made from A by `twin`, then edited), A again
+        ctx.tag('pd:twin-' + twin)
+        other, orx, onorms = _twin(pd, case, twin)
+        ctx.trans(2 * case['n'] * case['nx'])
+        _check_1d(other, orx, onorms, name, grid, base, units, ctx, dict(sig, history='second diagram (%s), edited' % twin),
+                  case, tag=False)
+        _check_1d(pd, rxns, norms, name, grid, base, units, ctx,
+                  dict(sig, history='first diagram after a second one (%s) was made, edited and scanned' % twin), case,
+                  tag=False)
 
 
 def _run_pd2(case, ctx):
     sig = _pd_sig(case)
     pd, rxns, norms = _diagram(case)
     (a, b), (na, nb), units = case['pair'], case['sizes'], case['units']
-    ga, gb = _grid(a, na), _grid(b, nb)
+    fa, fb = case.get('gforms') or (None, None)
+    ga, gb = _grid(a, na, fa), _grid(b, nb, fb)
+    ea, eb = [_oelem(g) for g in ga], [_oelem(g) for g in gb]
     base = _base([a, b], case['base'])
     n = len(rxns)
     ctx.tag('pd:2D')
     ctx.tag('pd:scan-' + a)
     ctx.tag('pd:scan-' + b)
     ctx.tag('pd:units' if units else 'pd:dimensionless')
+    if fa or fb:
+        ctx.tag('pd:2D-grid-forms')
+        for f in (fa, fb):
+            if f:
+                ctx.tag('pd:grid-' + f)
+    if case.get('nform'):
+        ctx.tag('pd:norm-' + case['nform'])
+    if case['base'] == 'i':
+        ctx.tag('pd:fixed-conditions-int')
+    if case['base'] == 'e':
+        ctx.tag('pd:fixed-empty-species-kwargs')
     ctx.trans(n * na * nb)
-    G, st = pd.get_GoRT_2D(x1_name=a, x1_values=[dict(g) if isinstance(g, dict) else g for g in ga],
-                           x2_name=b, x2_values=[dict(g) if isinstance(g, dict) else g for g in gb],
-                           G_units=units, **_cond(base))
-    ctx.trace()
-    ctx.evals(n * na * nb)
-    G, st = np.asarray(G), np.asarray(st)
-    if not ctx.true('2-D table has shape (n_reactions, n_x1, n_x2)', G.shape == (n, na, nb), sig, case, list(G.shape),
-                    [n, na, nb]):
-        return
-    exp = np.zeros((n, na, nb))
-    for j, xa in enumerate(ga):
-        for k, xb in enumerate(gb):
-            exp[:, j, k] = _expected(rxns, norms, _cond(base, **{a: xa, b: xb}), units)
-    ctx.evals(n * na * nb)
-    ok = ctx.close('tabulated energy = reaction value / normalisation factor (x RT with units)', G, exp, sig, case,
-                   rtol=1e-10, scale=np.abs(exp) + 1.0)
-    okp = ctx.true('stable-phase array has one entry per grid point', st.shape == (na, nb), sig, case, list(st.shape),
-                   [na, nb])
-    tol = 1e-9 * (np.max(np.abs(exp)) + 1.0)
-    am = np.argmin(exp, axis=0)
-    if okp:
-        good = all(_argmin_ok(st[j, k], exp[:, j, k], tol) for j in range(na) for k in range(nb))
-        okp &= ctx.true('reported stable phase has the lowest normalised energy at each grid point', good, sig, case,
-                        st.tolist(), am.tolist())
-    ctx.tag('pd:argmin-changes-along-grid' if len(set(am.ravel().tolist())) > 1 else 'pd:argmin-constant')
-    if not (ok and okp):
-        return
-    # one- and two-parameter scans agree: rows (x1 fixed) and columns (x2 fixed)
+    reps = 2 if case.get('again') else 1
+    for rep in range(reps):
+        if rep:
+            # the caller has overwritten the first result; same object, same containers, scanned again
+            ctx.tag('pd:again-2D')
+            sig = dict(sig, history='scan, overwrite the result, scan')
+            for arr in (G, st):
+                if isinstance(arr, np.ndarray) and arr.flags.writeable:
+                    arr[...] = 7
+            ctx.trans(n * na * nb)
+        sa, sb, kw = _snap(ga), _snap(gb), _cond(base)
+        kw_snap, nf_snap = _snap(kw), _norm_snapshot(pd)
+        G, st = pd.get_GoRT_2D(x1_name=a, x1_values=ga, x2_name=b, x2_values=gb, G_units=units, **kw)
+        ctx.trace()
+        ctx.evals(n * na * nb)
+        ctx.true(UNCHANGED, _same(ga, sa) and _same(gb, sb) and _same(kw, kw_snap) and _norm_snapshot(pd) == nf_snap,
+                 sig, case, dict(grid=repr((ga, gb))[:200], fixed=repr(kw)[:200], norm_factors=repr(pd.norm_factors)[:120]),
+                 dict(grid=repr((sa, sb))[:200], fixed=repr(kw_snap)[:200], norm_factors=repr(nf_snap)[:120]))
+        G, st = np.asarray(G), np.asarray(st)
+        if not ctx.true('2-D table has shape (n_reactions, n_x1, n_x2)', G.shape == (n, na, nb), sig, case,
+                        list(G.shape), [n, na, nb]):
+            return
+        exp = np.zeros((n, na, nb))
+        for j, xa in enumerate(ea):
+            for k, xb in enumerate(eb):
+                exp[:, j, k] = _expected(rxns, norms, _cond(base, **{a: xa, b: xb}), units)
+        ctx.evals(n * na * nb)
+        ok = ctx.close('tabulated energy = reaction value / normalisation factor (x RT with units)', G, exp, sig, case,
+                       rtol=1e-10, scale=np.abs(exp) + 1.0)
+        okp = ctx.true('stable-phase array has one entry per grid point', st.shape == (na, nb), sig, case,
+                       list(st.shape), [na, nb])
+        tol = 1e-9 * (np.max(np.abs(exp)) + 1.0)
+        am = np.argmin(exp, axis=0)
+        if okp:
+            good = all(_argmin_ok(st[j, k], exp[:, j, k], tol) for j in range(na) for k in range(nb))
+            okp &= ctx.true('reported stable phase has the lowest normalised energy at each grid point', good, sig, case,
+                            st.tolist(), am.tolist())
+        if not rep:
+            ctx.tag('pd:argmin-changes-along-grid' if len(set(am.ravel().tolist())) > 1 else 'pd:argmin-constant')
+        if not (ok and okp):
+            return
+    # one- and two-parameter scans agree: rows (x1 fixed) and columns (x2 fixed); the 1-D scans get the very same
+    # containers and the fixed value as the element of the other container
     rows = range(na) if na <= 5 else (0, na // 2, na - 1)
     cols = range(nb) if nb <= 5 else (0, nb // 2, nb - 1)
     for j in rows:
@@ -322,14 +592,19 @@ def _run_pd2(case, ctx):
                  r[1].tolist(), st[:, k].tolist())
 
 
+def _forms(scan):
+    return FORMS_NUM if scan in ('T', 'P') else FORMS_DICT
+
+
 def _pd1_cases(tier):
     seen = set()
 
     def emit(**kw):
         case = dict(kind='pd1', n=kw['n'], rot=kw['rot'], off=kw['off'], scan=kw['scan'], nx=kw['nx'],
                     units=kw['units'], base=kw['base'], normlist=kw['normlist'])
-        if kw.get('hist'):
-            case['hist'] = kw['hist']
+        for opt in ('hist', 'gform', 'nform', 'again', 'twin'):
+            if kw.get(opt):
+                case[opt] = kw[opt]
         key = tuple(sorted((k, str(v)) for k, v in case.items()))
         if key not in seen:
             seen.add(key)
@@ -348,17 +623,34 @@ def _pd1_cases(tier):
                             if c:
                                 yield c
                     # one deviation each from the default of the remaining dimensions
+                    devs = []
                     if nx in (2, 5):
                         devs = [dict(base='b'), dict(normlist=True), dict(hist='reassign'), dict(hist='inplace'),
                                 dict(hist='inplace', normlist=True)]
                         if tier == 'quick':
                             devs += [dict(rot=r) for r in (2, 4, 6)] + [dict(off=o) for o in (1, 2, 3)]
-                        for dv in devs:
-                            kw = dict(n=n, rot=0, off=0, scan=scan, nx=nx, units=units, base='a', normlist=False)
-                            kw.update(dv)
-                            c = emit(**kw)
-                            if c:
-                                yield c
+                    # containers / number types of the grid, the factors and the fixed conditions; the same object
+                    # scanned again; a second diagram in the same process (quick: without kJ/mol, which differs from
+                    # eV by a constant only)
+                    if tier == 'thorough' or units != 'kJ/mol':
+                        if nx in (2, 5):
+                            devs += [dict(gform=f) for f in _forms(scan)]
+                            devs += [dict(nform=f) for f in NFORMS]
+                            devs += [dict(base='i'), dict(base='e'), dict(again='same'), dict(again='edited')]
+                            devs += [dict(twin=t) for t in TWINS]
+                            if scan in ('T', 'P'):
+                                devs += [dict(again='edited', gform='array'), dict(gform='intarray', nform='intarray'),
+                                         dict(gform='intarray', base='i')]
+                        elif n in (1, 3, 8) or tier == 'thorough':
+                            # the smallest and the largest grid in every container that changes the number type
+                            devs += [dict(gform=f) for f in (('array', 'intlist', 'intarray', 'range', 'inttuple')
+                                                             if scan in ('T', 'P') else ('tuple', 'intdict'))]
+                    for dv in devs:
+                        kw = dict(n=n, rot=0, off=0, scan=scan, nx=nx, units=units, base='a', normlist=False)
+                        kw.update(dv)
+                        c = emit(**kw)
+                        if c:
+                            yield c
 
 
 def _pd2_cases(tier):
@@ -373,6 +665,26 @@ def _pd2_cases(tier):
                             continue
                         yield dict(kind='pd2', n=n, rot=rot, off=off, pair=list(pair), sizes=list(sizes), units=units,
                                    base=base, normlist=False)
+                    # one deviation each: container / number type of either grid (both for the integer array),
+                    # factors, fixed conditions, the same scan repeated
+                    if tuple(sizes) not in ((2, 5), (5, 2)) or (tier == 'quick' and units == 'kJ/mol'):
+                        continue
+                    fa, fb = _forms(pair[0]), _forms(pair[1])
+                    if tier == 'quick':
+                        # quick: the first grid deviates in the (5, 2) scan, the second in the (2, 5) scan
+                        devs = ([dict(gforms=[f, None]) for f in fa] if tuple(sizes) == (5, 2)
+                                else [dict(gforms=[None, f]) for f in fb])
+                    else:
+                        devs = [dict(gforms=[f, None]) for f in fa] + [dict(gforms=[None, f]) for f in fb]
+                    devs.append(dict(gforms=['intarray' if x in ('T', 'P') else 'intdict' for x in pair]))
+                    devs.append(dict(gforms=['shuffled', 'shuffled']))
+                    devs += [dict(nform='intarray'), dict(nform='omitted'), dict(base='i'), dict(base='e'),
+                             dict(again=True)]
+                    for dv in devs:
+                        case = dict(kind='pd2', n=n, rot=0, off=0, pair=list(pair), sizes=list(sizes), units=units,
+                                    base='a', normlist=False)
+                        case.update(dv)
+                        yield case
 
 
 # =================================================================== energy spans
@@ -542,11 +854,260 @@ def _run_span(case, ctx):
                   scale=(abs(max(E)) + abs(min(E)) + 2 * X_G + 1.0) * f)
 
 
+# =================================================================== energy spans under conditions
+# Sequences whose states contain pressure-dependent ideal-gas species (adsorption of A in the first / second step,
+# desorption of B - or A again - in the last / first step) evaluated at general and species-specific pressures.
+GAS_PATTERNS = ['A|-', '2A|-', '-|B', '-|2B', '-|A', 'A|B', '2A|B', 'A|2B', '2A|2B', 'A|A', '2A|A']
+MID_PATTERNS = ['mid:A>', 'mid:>B']          # A adsorbs in the second step / B leaves in the first: unchained steps
+SPAN_CONDS = [dict(),                                                   # 0 pressure omitted (1 bar)
+              dict(P=1.0),                                              # 1 the default given explicitly
+              dict(P=1e-6),                                             # 2
+              dict(P=50),                                               # 3 Python int
+              dict(P=1.0, A_kwargs=dict(P=1e-5)),                       # 4 species-specific over the default
+              dict(P=1e-6, B_kwargs=dict(P=10.0)),                      # 5 species-specific over a general pressure
+              dict(A_kwargs=dict(P=1e-4), B_kwargs=dict(P=20)),         # 6 only species-specific (one a Python int)
+              dict(P=1e-3, A_kwargs=dict(), B_kwargs=dict(P=1e-3))]     # 7 empty species dict; same value by both routes
+_GAS_DEF = {'A': dict(E=0.4, wn=[2121.2], rt=[2.78], geom='linear', sig=1, mw=28.01, el={'C': 1, 'O': 1}),
+            'B': dict(E=0.3, wn=[667.0, 667.0, 1333.0, 2349.0], rt=[0.561], geom='linear', sig=2, mw=44.01,
+                      el={'C': 1, 'O': 2})}
+_G1 = {}
+
+
+def _gas(name):
+    from pmutt.statmech import StatMech, trans, rot, vib, elec
+    d = _GAS_DEF[name]
+    return StatMech(name=name, elements=d['el'], trans_model=trans.FreeTrans(n_degrees=3, molecular_weight=d['mw']),
+                    vib_model=vib.HarmonicVib(vib_wavenumbers=list(d['wn'])),
+                    rot_model=rot.RigidRotor(symmetrynumber=d['sig'], geometry=d['geom'],
+                                             rot_temperatures=list(d['rt'])),
+                    elec_model=elec.GroundStateElec(potentialenergy=d['E'], spin=0))
+
+
+def _gas_G(name, T, P):
+    """Oracle: the species' own Gibbs energy at 1 bar (a separately built object, float arguments) plus the
+    ideal-gas pressure term kB T ln(P / 1 bar), eV."""
+    from pmutt import constants as c
+    key = (name, float(T))
+    if key not in _G1:
+        _G1[key] = float(_gas(name).get_G(units='eV', T=float(T), P=1.0))
+    return _G1[key] + c.kb('eV/K') * float(T) * math.log(float(P))
+
+
+def _parse_tok(tok):
+    if tok == '-':
+        return []
+    return [(tok[-1], int(tok[:-1]) if len(tok) > 1 else 1)]
+
+
+def _spanc_steps(case):
+    """[(reactant state, ts state or None, product state)], a state = (surface name, surface G, [(gas, stoich)])."""
+    g, ts, pat = case['g'], case['ts'], case['gas']
+    k = len(ts)
+    gin, gout = [[] for _ in range(k)], [[] for _ in range(k)]
+    if pat == 'mid:A>':
+        gin[1] = [('A', 1)]
+    elif pat == 'mid:>B':
+        gout[0] = [('B', 1)]
+    else:
+        first, last = pat.split('|')
+        gin[0], gout[k - 1] = _parse_tok(first), _parse_tok(last)
+    steps = []
+    for i in range(k):
+        r = ('S%d' % i, g[i], gin[i])
+        p = ('S%d' % (i + 1), g[i + 1], gout[i])
+        t = ('TS%d' % i, max(g[i], g[i + 1]) + 1.0, []) if ts[i] else None
+        steps.append((r, t, p))
+    return steps
+
+
+def _peff(name, cond):
+    sk = cond.get('%s_kwargs' % name) or {}
+    if 'P' in sk:
+        return float(sk['P'])
+    return float(cond.get('P', 1.0))
+
+
+def _state_G(state, T, cond):
+    return state[1] + sum(nu * _gas_G(name, T, _peff(name, cond)) for name, nu in state[2])
+
+
+def _cond_kind(cond):
+    sp = any(k.endswith('_kwargs') and v for k, v in cond.items())
+    gen = 'P' in cond
+    return {(False, False): 'P omitted', (True, False): 'P', (False, True): 'species P',
+            (True, True): 'P + species P'}[(gen, sp)]
+
+
+def _spanc_cases(tier):
+    def profiles():
+        if tier == 'quick':
+            for k in (1, 2):
+                for g in itertools.product(LAT3, repeat=k + 1):
+                    for ts in _ts_codes(k):
+                        yield list(g), list(ts)
+            for rest in itertools.product(LAT3, repeat=3):
+                for ts in ((0, 0, 0), (1, 1, 1), (0, 1, 0)):
+                    yield [0.0] + list(rest), list(ts)
+        else:
+            for k in (1, 2):
+                for g in itertools.product(LAT, repeat=k + 1):
+                    for ts in _ts_codes(k):
+                        yield list(g), list(ts)
+            for g in itertools.product(LAT3, repeat=4):
+                for ts in _ts_codes(3):
+                    yield list(g), list(ts)
+
+    for g, ts in profiles():
+        pats = GAS_PATTERNS + (MID_PATTERNS if len(ts) >= 2 else [])
+        for pat in pats:
+            for ci in range(len(SPAN_CONDS)):
+                for Ti in ((0, 1) if tier == 'thorough' else (None,)):
+                    case = dict(kind='spanc', g=g, ts=ts, gas=pat, cond=ci)
+                    if Ti is not None:
+                        case['Ti'] = Ti
+                    if len(ts) >= 2 and ci in (2, 5):
+                        case['edit'] = True
+                    yield case
+
+
+def _spanc_T(case):
+    Ti = case.get('Ti')
+    if Ti is None:
+        Ti = (int(sum(case['g'])) + case['cond']) % 2
+    return 300 if Ti == 0 else 650.0            # a Python int and a float
+
+
+def _spanc_sig(case, api=None, units=None, history=None):
+    s = dict(part='e-span', family='gas species and pressures', gas='mid' if case['gas'].startswith('mid') else 'ends',
+             cond=_cond_kind(SPAN_CONDS[case['cond']]))
+    if api:
+        s['api'] = api
+        s['units'] = units or 'none'
+    if history:
+        s['history'] = history
+    return s
+
+
+def _run_spanc(case, ctx):
+    from pmutt import constants as c
+    from pmutt.statmech import StatMech, ConstantMode
+    from pmutt.reaction import Reaction, Reactions
+    from pmutt.reaction.network import Network
+    steps = _spanc_steps(case)
+    cond = SPAN_CONDS[case['cond']]
+    T = _spanc_T(case)
+    k = len(steps)
+    mid = case['gas'].startswith('mid')
+    gases = {'A': _gas('A'), 'B': _gas('B')}
+    surf = {}
+
+    def species(state):
+        name, e, gl = state
+        if name not in surf:
+            surf[name] = StatMech(name=name, trans_model=ConstantMode(G=e))
+        return [surf[name]] + [gases[n] for n, _ in gl], [1] + [nu for _, nu in gl]
+
+    rxns = []
+    for r, t, p in steps:
+        rs, rst = species(r)
+        ps, pst = species(p)
+        tsp, tst = species(t) if t else (None, None)
+        rxns.append(Reaction(reactants=rs, reactants_stoich=rst, products=ps, products_stoich=pst,
+                             transition_state=tsp, transition_state_stoich=tst))
+    ctx.trans(k)
+
+    def oracle(step_list, cnd):
+        states = [s for st in step_list for s in st if s is not None]
+        E = [_state_G(s, T, cnd) for s in states]
+        return E, _span_candidates(E)
+
+    E, (cands, branch, imax) = oracle(steps, cond)
+    E0, (_, branch0, imax0) = oracle(steps, {})
+    ctx.tag({'before': 'spanc:max-before-min', 'after': 'spanc:max-after-min', 'tie': 'spanc:tie'}[branch])
+    if branch == 'before' and abs((E[-1] - E[0]) - (E0[-1] - E0[0])) > 1e-3:
+        ctx.tag('spanc:before+overall-term-depends-on-conditions')
+    if branch != branch0 or imax[0] != imax0[0]:
+        ctx.tag('spanc:extrema-move-with-conditions')
+    ctx.tag('spanc:cond-' + _cond_kind(cond).replace(' ', '-'))
+    ctx.tag('spanc:mid-gas' if mid else 'spanc:end-gas')
+    ctx.tag('spanc:int-T' if isinstance(T, int) else 'spanc:float-T')
+    if any(isinstance(v, int) for v in [cond.get('P')] + [d.get('P') for d in cond.values() if isinstance(d, dict)]):
+        ctx.tag('spanc:int-P')
+    clause = 'energy span = highest - lowest state G (+ overall reaction G when the highest precedes the lowest)'
+    again = 'the same call repeated with the same keyword objects gives the same energy span'
+    kept = "the call leaves the caller's species-specific keyword dicts as they were"
+    scale = max(abs(v) for v in E) + 1.0
+
+    def nearest(obs, cs, factor):
+        cs = [v * factor for v in cs]
+        try:
+            return min(cs, key=lambda v: abs(v - float(obs)))
+        except (TypeError, ValueError):
+            return cs[0]
+
+    def kwargs():
+        return dict(T=T, **{k_: (dict(v) if isinstance(v, dict) else v) for k_, v in cond.items()})
+
+    seq = Reactions(reactions=list(rxns[:-1]) if case.get('edit') else list(rxns))
+    hist = None
+    if case.get('edit'):
+        # history: span of the sequence without its last step, the step appended to the same object, span again
+        ctx.tag('spanc:edit-append')
+        hist = 'span, append a step to .reactions, span'
+        _, (cs_p, _, _) = oracle(steps[:-1], cond)
+        obs = seq.get_E_span(units='eV', **kwargs())
+        ctx.trace()
+        ctx.evals()
+        ctx.close(clause, obs, nearest(obs, cs_p, 1.0), _spanc_sig(case, 'Reactions', 'eV', 'span of the shorter sequence'),
+                  case, rtol=1e-9, scale=scale)
+        seq.reactions.append(rxns[-1])
+    ctx.tag('spanc:Reactions')
+    for units in ('eV', 'kJ/mol'):
+        kw = kwargs()
+        snap = copy.deepcopy(kw)
+        obs = seq.get_E_span(units=units, **kw)
+        ctx.trace()
+        ctx.evals()
+        f = c.R('%s/K' % units) / c.R('eV/K')
+        sig = _spanc_sig(case, 'Reactions', units, hist)
+        ctx.close(clause, obs, nearest(obs, cands, f), sig, case, rtol=1e-9, scale=scale * f)
+        ctx.true(kept, kw == snap, sig, case, repr(kw), repr(snap))
+        if units == 'eV':
+            obs2 = seq.get_E_span(units=units, **kw)
+            ctx.trace()
+            ctx.evals()
+            ctx.tag('spanc:second-call')
+            ctx.close(again, obs2, obs, sig, case, rtol=1e-13, scale=scale * f)
+    if mid:
+        return          # Network.get_E_span follows a path of shared states; not defined for unchained steps
+    ctx.tag('spanc:Network')
+    net = Network(reactions=list(rxns))
+    path = []
+    for st in steps:
+        for s in st:
+            if s is None:
+                continue
+            node = frozenset([(s[0], 1)] + [(n, nu) for n, nu in s[2]])
+            if not path or path[-1] != node:
+                path.append(node)
+    for units in ('eV', None):
+        kw = kwargs()
+        snap = copy.deepcopy(kw)
+        obs = net.get_E_span(path=list(path), units=units, **kw)
+        ctx.trace()
+        ctx.evals()
+        f = 1.0 if units else 1.0 / (c.R('eV/K') * float(T))
+        sig = _spanc_sig(case, 'Network', units)
+        ctx.close(clause, obs, nearest(obs, cands, f), sig, case, rtol=1e-9, scale=scale * f)
+        ctx.true(kept, kw == snap, sig, case, repr(kw), repr(snap))
+
+
 # =================================================================== runner interface
 def shards(tier):
     out = [dict(kind='pd1', part=i, nparts=N_PD_SHARDS) for i in range(N_PD_SHARDS)]
     out += [dict(kind='pd2', part=i, nparts=N_PD_SHARDS) for i in range(N_PD_SHARDS)]
     out += [dict(kind='span', part=i, nparts=N_SPAN_SHARDS) for i in range(N_SPAN_SHARDS)]
+    out += [dict(kind='spanc', part=i, nparts=N_SPANC_SHARDS) for i in range(N_SPANC_SHARDS)]
     return out
 
 
@@ -557,14 +1118,16 @@ def check_case(case, ctx):
         _run_pd2(case, ctx)
     elif case['kind'] == 'span':
         _run_span(case, ctx)
+    elif case['kind'] == 'spanc':
+        _run_spanc(case, ctx)
     else:
         raise ValueError(case['kind'])
 
 
 def run_shard(shard, ctx):
     kind = shard['kind']
-    gen = {'pd1': _pd1_cases, 'pd2': _pd2_cases, 'span': _span_cases}[kind](ctx.tier)
-    fn = {'pd1': _run_pd1, 'pd2': _run_pd2, 'span': _run_span}[kind]
+    gen = {'pd1': _pd1_cases, 'pd2': _pd2_cases, 'span': _span_cases, 'spanc': _spanc_cases}[kind](ctx.tier)
+    fn = {'pd1': _run_pd1, 'pd2': _run_pd2, 'span': _run_span, 'spanc': _run_spanc}[kind]
     for i, case in enumerate(gen):
         if i % shard['nparts'] != shard['part']:
             continue
@@ -573,6 +1136,13 @@ def run_shard(shard, ctx):
             key = ('span', tuple(case['g']), tuple(case['ts']), case['spect'], case.get('chain', True))
             ctx.state(key)
             if sig['branch'] != 'after' or any(case['ts']):
+                ctx.nontrivial(key)
+        elif kind == 'spanc':
+            sig = _spanc_sig(case)
+            key = ('spanc', tuple(case['g']), tuple(case['ts']), case['gas'], case['cond'], case.get('Ti'),
+                   bool(case.get('edit')))
+            ctx.state(key)
+            if case['cond'] not in (0, 1):
                 ctx.nontrivial(key)
         else:
             sig = _pd_sig(case)
@@ -590,7 +1160,11 @@ LEVEL_TEXT = ('Exhaustive product enumeration on the real PhaseDiagram, Reaction
               'and 30 grid values, 1-D and 2-D, with and without units, checked against the reactions own values at '
               'freshly built conditions and a recomputed arg-min per grid point, with every 2-D row/column compared to '
               'the 1-D scan; and every G-profile of 1-4 steps on a five-value lattice with optional transition states '
-              'through both energy-span implementations.')
+              'through both energy-span implementations. Strengthened: grids as float / integer ndarray, list, tuple, '
+              'range, descending and unsorted with repeats; integer, list, tuple, None and omitted factors; integer and '
+              'empty fixed conditions; caller data unchanged; repeated scans after the result was overwritten or the grid '
+              'edited in place; second diagrams made by constructor, deepcopy and from_dict; energy spans of sequences '
+              'with ideal-gas species at general and species-specific pressures (oracle: 1 bar value + kB T ln P).')
 LEVEL_NOTE = ('Species from a fixed table whose lines cross along each scan; rotations/offsets of the reaction list by '
               'one deviation in the quick tier, full in the thorough tier; 5-8 step profiles only in the thorough tier '
               '(two deviations from two base profiles). Ties accept any tied answer.')
